@@ -347,8 +347,9 @@ def estimate_stats(voltages, stats_calc_num_samples=10000):
     data_mean = xp.mean(voltages[:calc_len])
     
     # Constant input has zero deviation; rounding in the mean would otherwise 
-    # leave a residual of order 1e-17 for quantizers to blow up
+    # leave a residual of order 1e-17 for quantizers to blow up (and for very
+    # large constants the squared residual overflows, so don't scale it by 0)
     if calc_len > 0 and xp.max(voltages[:calc_len]) == xp.min(voltages[:calc_len]):
-        data_sigma = 0 * data_sigma
+        data_sigma = xp.zeros_like(data_sigma)[()]
     
     return data_mean, data_sigma
